@@ -51,7 +51,7 @@ class Prop(PropBase):
     LEAN_MODULES = ["Tpp.Props.C16"]
     REQUIRED = ["Tpp.Props.C16." + n for n in (
         "C16_cells", "C16_index", "C16_index_onto", "C16_index_independent", "C16_region", "C16_region_enum",
-        "C16_region_elements", "C16_resize", "C16_resize_chain")]
+        "C16_region_elements", "C16_region_fill", "C16_resize", "C16_resize_chain")]
     RULE = ("cells are also assigned through *(begin()+k), inside a range-for and by region fills through the reference for_each_in_region hands out; a second canvas object takes copies (copy-assignment, copy-construction + move) which must not follow the original's later edits or resizes, and is assigned back; exhaustive: every (old size, new size) pair with widths and heights 0..6 (2401 pairs; thorough 0..8, 6561 "
             "pairs) on a canvas whose cells all hold pairwise different non-default elements (glyph byte derived from "
             "the coordinates, attribute varied): dump, resize, dump, full-region iteration, single-cell overwrite, "
